@@ -666,6 +666,7 @@ pub fn run(cfg: &Cfg) -> Report {
         }
     });
     stats.label("small_domain", &format!("{} (value, i, k, lens) points = {} values of depth<=2 x 9 i x 4 k x {} lenses; a run covers small_domain_pairs_covered distinct points", small_triples() * SMALL_LENSES, small_count(2), SMALL_LENSES));
+    crate::sanitize::passes_for("C24", cfg, &mut stats);
     Report {
         prop: "C24",
         level: "exploration",
